@@ -230,6 +230,14 @@ def noBlockWrites (evs : List Ev) : Bool :=
     | .s tb _ _ _ => (BId.ofName tb).isNone
     | _ => true)
 
+/-- no recorded write of the list SETS a row of `account_and_nonce_to_tx_hash`: only `set_pending_tx` (the parked path
+of `add_raw_tx_to_block`) does; a transaction (its drain loop) and `finalise_block` (`clear_txpool`) only call
+`remove_pending_tx`, which unsets -/
+def noPendingSet (evs : List Ev) : Bool :=
+  evs.all (fun e => match e with
+    | .s tb _ _ (some _) => tb != TId.pending.name
+    | _ => true)
+
 /-- `add_tx_to_block` for one or more transactions appended by the same call (a drain appends several). -/
 def addTxs (n : Node) (ts : Nat) (hash0 : String) (idx : Nat) (txid : Option String) (evs : List Ev)
     (expectRuns : Option Nat) : Node × Class :=
@@ -244,6 +252,7 @@ def addTxs (n : Node) (ts : Nat) (hash0 : String) (idx : Nat) (txid : Option Str
     else if !(runs.all (fun r => envOk r.1 bn ts hash none)) then (n, .reject "env")
     else if !(match runs.head? with | some r => envOk r.1 bn ts hash txid | none => true) then (n, .reject "txid")
     else if !noBlockWrites evs then (n, .reject "tx-wrote-block-table")
+    else if !noPendingSet evs then (n, .reject "tx-set-pending")
     else
       let l0 : Lbi := if n.lbi.waiting = 0 then { waiting := 0, ts := ts, hash := hash, gasUsed := 0, logIndex := 0 } else n.lbi
       match applyEvents n bn evs with
@@ -270,6 +279,23 @@ def poolOnly (evs : List Ev) : Bool :=
   evs.all (fun e => match e with
     | .s tb _ _ _ => poolTables.any (fun i => tb == i.name)
     | _ => true)
+
+/-- the recorded table writes of a list (table, key, value), without their stamps -/
+def tableWrites (evs : List Ev) : List (String × String × Option String) :=
+  evs.filterMap (fun e => match e with | .s tb _ k v => some (tb, k, v) | _ => none)
+
+/-- the recorded table writes of a parked submission are those of ONE `set_pending_tx(sender, nonce, tx, txid)`: one
+`set` of the row of `account_and_nonce_to_tx_hash` keyed by `(sender, nonce)`, whose transaction carries `Some(bn)` as
+its block number (`TxED::new(.., block_number, ..)` with the height being built), and one `set` of a row of
+`pending_tx_hash_to_tx_id`; nothing else (the order of the two is left free) -/
+def parkedShape (sender : String) (nonce bn : Nat) (evs : List Ev) : Bool :=
+  match tableWrites evs with
+  | [(t1, k1, some v1), (t2, k2, some v2)] =>
+    (t1 == TId.pending.name && t2 == TId.pendingTxid.name && k1 == sender ++ hexN 16 nonce &&
+      parkedBlock v1 == some bn) ||
+    (t1 == TId.pendingTxid.name && t2 == TId.pending.name && k2 == sender ++ hexN 16 nonce &&
+      parkedBlock v2 == some bn)
+  | _ => false
 
 /-- none of the nonces `start, start+1, .., start+visited-1` of `sender` has a row in the pending table -/
 def drainGone (n : Node) (sender : String) (start visited : Nat) : Bool :=
@@ -301,9 +327,11 @@ def addRawTx (n : Node) (ts : Nat) (hash0 : String) (idx : Nat) (txid : String) 
     let bn := n.nextHeight
     if nonce ≠ acct then
       if nonce > acct ∧ nonce < acct + FUTURE_NONCES then
-        -- parked: two pending-table writes stamped with the height being built, no run, block info untouched
+        -- parked: the two writes of `set_pending_tx`, stamped with the height being built (which is also the block
+        -- number stored in the row), no run, block info untouched
         if !(txRuns evs).isEmpty then (n, .reject "parked-ran")
         else if !poolOnly evs then (n, .reject "parked-wrote")
+        else if !parkedShape sender nonce bn evs then (n, .reject "parked-shape")
         else match applyEvents n bn evs with
           | none => (n, .reject "stamp")
           | some n' => (n', .ok)
@@ -346,6 +374,7 @@ def finaliseOne (n : Node) (ts : Nat) (hash0 : String) (count : Nat) (evs : List
   | some e => (n, .err e)
   | none =>
     if !finOnly hash evs then (n, .reject "fin-wrote")
+    else if !noPendingSet evs then (n, .reject "fin-set-pending")
     else
     match applyEvents n bn evs with
     | none => (n, .reject "stamp")
